@@ -512,6 +512,212 @@ async fn control_connection_pager(o: &mut Outcome, n_keyspaces: usize) {
     cluster.shutdown();
 }
 
+// ---------------------------------------------------------------------------
+// A response that arrives after its page request was given up (client-side timeout)
+// ---------------------------------------------------------------------------
+//
+// Query A's page k is answered only much later than the statement's request timeout: A's stream must
+// deliver the rows of the earlier pages and then the error. Meanwhile query B runs on the SAME
+// connection (one node, one pool connection); the node sends A's late answer right before one of B's
+// pages. B must still deliver exactly its own rows, in order, and end.
+
+struct LatePager {
+    /// (pages of A, pages of B)
+    pages: [Vec<Vec<i64>>; 2],
+    stall_at: usize,
+    release_before_b_page: usize,
+    held: Mutex<Option<Rq>>,
+    requested: Mutex<[Vec<usize>; 2]>,
+}
+
+const LATE_PREFIX: &str = "SELECT n FROM ks.paged WHERE late = ";
+
+impl Handler for LatePager {
+    fn on_request(&self, rq: Rq) {
+        let (q, ps) = match &*rq.request {
+            Request::Query { query, params } => (query.strip_prefix(LATE_PREFIX).and_then(|s| s.trim().parse::<usize>().ok()), params.paging_state.clone()),
+            _ => (None, None),
+        };
+        let Some(q) = q.filter(|q| *q < 2) else {
+            rq.void();
+            return;
+        };
+        let idx = match ps {
+            None => 0,
+            Some(b) => std::str::from_utf8(&b).ok().and_then(|t| t.strip_prefix("late-")).and_then(|t| t.parse::<usize>().ok()).unwrap_or(usize::MAX),
+        };
+        self.requested.lock().unwrap()[q].push(idx);
+        let pages = &self.pages[q];
+        if idx >= pages.len() {
+            rq.error(ErrorBody::simple(errcode::INVALID, "bad paging state"));
+            return;
+        }
+        let answer = |rq: &Rq, pages: &Vec<Vec<i64>>, idx: usize| {
+            let rows: Vec<Row> = pages[idx].iter().map(|n| vec![Some(n.to_be_bytes().to_vec())]).collect();
+            let next = if idx + 1 < pages.len() { Some(format!("late-{}", idx + 1).into_bytes()) } else { None };
+            rq.rows(paged_cols(), rows, next);
+        };
+        if q == 0 && idx == self.stall_at {
+            // withheld: answered right before one of B's pages
+            *self.held.lock().unwrap() = Some(rq);
+            return;
+        }
+        if q == 1 && idx == self.release_before_b_page {
+            if let Some(late) = self.held.lock().unwrap().take() {
+                answer(&late, &self.pages[0], self.stall_at);
+            }
+        }
+        answer(&rq, pages, idx);
+    }
+}
+
+struct LateOut {
+    error: Option<String>,
+    a_rows: Vec<i64>,
+    a_error: Option<String>,
+    a_ended: bool,
+    b_rows: Vec<i64>,
+    b_error: Option<String>,
+    b_ended: bool,
+    protocol_violations: Vec<String>,
+}
+
+async fn run_late_response(seed: u64) -> (Arc<LatePager>, LateOut) {
+    use futures::StreamExt;
+    let mut rng = Rng::new(seed, 71);
+    let mut next = 1i64;
+    let mut mk = |rng: &mut Rng, n_pages: usize| -> Vec<Vec<i64>> {
+        (0..n_pages)
+            .map(|_| {
+                (0..rng.usize(0, 3))
+                    .map(|_| {
+                        next += 1;
+                        next
+                    })
+                    .collect()
+            })
+            .collect()
+    };
+    let (na, nb) = (rng.usize(2, 5), rng.usize(2, 6));
+    let a = mk(&mut rng, na);
+    let b = mk(&mut rng, nb);
+    let stall_at = rng.usize(1, a.len() - 1);
+    let release_before_b_page = rng.usize(0, b.len() - 1);
+    let h = Arc::new(LatePager { pages: [a, b], stall_at, release_before_b_page, held: Mutex::new(None), requested: Mutex::new([vec![], vec![]]) });
+    let mut out = LateOut { error: None, a_rows: vec![], a_error: None, a_ended: false, b_rows: vec![], b_error: None, b_ended: false, protocol_violations: vec![] };
+    let spec = ClusterSpec {
+        nodes: vec![NodeSpec::simple("dc1", "r1", vec![0])],
+        keyspaces: vec![KeyspaceDef::simple("ks", 1).with_table(TableDef::new("paged", &[("late", "bigint")], &[("n", "bigint")]))],
+        cluster_name: "c07-late".into(),
+    };
+    let cluster = MockCluster::start(spec, h.clone()).await;
+    let profile = ExecutionProfile::builder().retry_policy(Arc::new(FallthroughRetryPolicy::new())).request_timeout(None).build();
+    let session = match connect(&cluster, |b| b.default_execution_profile_handle(profile.into_handle()).pool_size(scylla::client::PoolSize::PerHost(std::num::NonZeroUsize::new(1).unwrap()))).await {
+        Ok(s) => s,
+        Err(e) => {
+            out.error = Some(e);
+            cluster.shutdown();
+            return (h, out);
+        }
+    };
+    {
+        let c = cluster.clone();
+        cluster.wait_until(Duration::from_secs(10), move || c.established(0).iter().any(|x| !x.registered.load(std::sync::atomic::Ordering::SeqCst))).await;
+    }
+    // A: gives up on its stalled page after 80 ms
+    let mut st = scylla::statement::Statement::new(format!("{LATE_PREFIX}0"));
+    st.set_page_size(2);
+    st.set_request_timeout(Some(Duration::from_millis(80)));
+    match tokio::time::timeout(Duration::from_secs(20), session.query_iter(st, ())).await {
+        Ok(Ok(p)) => match p.rows_stream::<(i64,)>() {
+            Ok(mut rows) => loop {
+                match tokio::time::timeout(Duration::from_secs(20), rows.next()).await {
+                    Err(_) => {
+                        out.error = Some("query A did not come back within 20 s".into());
+                        break;
+                    }
+                    Ok(None) => {
+                        out.a_ended = true;
+                        break;
+                    }
+                    Ok(Some(Ok((n,)))) => out.a_rows.push(n),
+                    Ok(Some(Err(e))) => {
+                        out.a_error = Some(e.to_string());
+                        break;
+                    }
+                }
+            },
+            Err(e) => out.error = Some(format!("rows_stream A: {e}")),
+        },
+        other => out.error = Some(format!("query A did not start: {:?}", other.map(|r| r.map(|_| ()).map_err(|e| e.to_string())))),
+    }
+    // B: same connection, while A's answer is still owed
+    if out.error.is_none() {
+        let mut st = scylla::statement::Statement::new(format!("{LATE_PREFIX}1"));
+        st.set_page_size(2);
+        match tokio::time::timeout(Duration::from_secs(20), session.query_iter(st, ())).await {
+            Ok(Ok(p)) => match p.rows_stream::<(i64,)>() {
+                Ok(mut rows) => loop {
+                    match tokio::time::timeout(Duration::from_secs(20), rows.next()).await {
+                        Err(_) => {
+                            out.b_error = Some("no item within 20 s (stream hangs)".into());
+                            break;
+                        }
+                        Ok(None) => {
+                            out.b_ended = true;
+                            break;
+                        }
+                        Ok(Some(Ok((n,)))) => out.b_rows.push(n),
+                        Ok(Some(Err(e))) => {
+                            out.b_error = Some(e.to_string());
+                            break;
+                        }
+                    }
+                    if out.b_rows.len() > 200 {
+                        out.b_error = Some("more than 200 rows".into());
+                        break;
+                    }
+                },
+                Err(e) => out.b_error = Some(format!("rows_stream: {e}")),
+            },
+            Ok(Err(e)) => out.b_error = Some(e.to_string()),
+            Err(_) => out.b_error = Some("query_iter did not return within 20 s".into()),
+        }
+    }
+    out.protocol_violations = cluster.log().violations();
+    drop(session);
+    cluster.shutdown();
+    (h, out)
+}
+
+fn judge_late(o: &mut Outcome, seed: u64, h: &LatePager, r: &LateOut) {
+    if let Some(e) = &r.error {
+        o.inconclusive(format!("late-response case could not run: {e}"));
+        return;
+    }
+    let replay = json!({"late_response_seed": seed, "pages_a": h.pages[0], "pages_b": h.pages[1], "a_stalls_at_page": h.stall_at, "late_answer_sent_before_b_page": h.release_before_b_page,
+        "a": {"rows": r.a_rows, "error": r.a_error, "ended": r.a_ended}, "b": {"rows": r.b_rows, "error": r.b_error, "ended": r.b_ended}, "requested": format!("{:?}", h.requested.lock().unwrap())});
+    o.case(fw::hash64(format!("late:{seed}").as_bytes()), true);
+    o.class("fault:late-answer-after-client-timeout");
+    for v in &r.protocol_violations {
+        o.node_violation("c07", v, replay.clone());
+    }
+    // A: the rows of the pages before the stalled one, then the error
+    let a_want: Vec<i64> = h.pages[0][..h.stall_at].iter().flatten().copied().collect();
+    if r.a_rows != a_want || r.a_error.is_none() {
+        o.violation("c07:late:rows-before-the-failed-page", format!("query A (page {} never answered in time): delivered {:?} then {:?}; the earlier pages hold {a_want:?} and the failure must surface as an error after them", h.stall_at, r.a_rows, r.a_error), replay.clone());
+    }
+    // B: exactly its own rows
+    let b_want: Vec<i64> = h.pages[1].iter().flatten().copied().collect();
+    if r.b_rows != b_want || !r.b_ended || r.b_error.is_some() {
+        let foreign: Vec<i64> = r.b_rows.iter().copied().filter(|n| !b_want.contains(n)).collect();
+        let sig = if !foreign.is_empty() { "c07:late:foreign-rows-delivered" } else if r.b_error.is_some() { "c07:late:stream-failed-on-a-healthy-node" } else { "c07:late:rows-lost-or-reordered" };
+        o.violation(sig, format!("query B ran on the connection that still owed query A's late answer: delivered {:?} (ended {}, error {:?}), its pages hold {b_want:?}", r.b_rows, r.b_ended, r.b_error), replay.clone());
+    } else {
+        o.class("late-answer:other-stream-undisturbed");
+    }
+}
+
 pub fn run(ctx: &Ctx) -> Outcome {
     let mut out = Outcome::new();
     let rt = runtime(ctx.workers.min(8));
@@ -590,6 +796,31 @@ pub fn run(ctx: &Ctx) -> Outcome {
             break;
         }
     }
+    if out.violations.is_empty() {
+        let n = ctx.vol(40, 1500);
+        let seeds: Vec<u64> = (0..n).map(|i| ctx.seed.wrapping_mul(6007).wrapping_add(i)).collect();
+        for chunk in seeds.chunks(8) {
+            let res = rt.block_on(async {
+                let mut js = Vec::new();
+                for s in chunk.iter().copied() {
+                    js.push(tokio::spawn(async move { (s, run_late_response(s).await) }));
+                }
+                let mut v = Vec::new();
+                for j in js {
+                    if let Ok(x) = j.await {
+                        v.push(x);
+                    }
+                }
+                v
+            });
+            for (s, (h, r)) in &res {
+                judge_late(&mut out, *s, h, r);
+            }
+            if fw::stop_early(&mut out) {
+                break;
+            }
+        }
+    }
     rt.block_on(control_connection_pager(&mut out, if ctx.quick() { 1500 } else { 5200 }));
     for c in [
         "fault:RetryableError",
@@ -599,6 +830,8 @@ pub fn run(ctx: &Ctx) -> Outcome {
         "fault:Unprepared",
         "fault:NodeDown",
         "paging-state:zero-length-with-more-pages",
+        "fault:late-answer-after-client-timeout",
+        "late-answer:other-stream-undisturbed",
         "pager:execute_iter",
         "pager:query_iter",
         "pager:control-connection",
